@@ -197,7 +197,46 @@ def check_cross(case):
     return res
 
 
+def check_edit_between(case):
+    """analysis a, then a leaf is deleted and a component of the SAME name is added under another parent (freed index re-used), then solve():
+    the result must be that of the edited structure built from scratch."""
+    from ..sysmodel import make_comp, resolve
+    res = Res()
+    spec = copy.deepcopy(systems(case["pal"])[case["sys"]])
+    d = resolve(spec)
+    leaves = [n for n in d if not d[n]["children"] and d[n]["k"] != "Source" and len(d[n]["parents"]) == 1]
+    if not leaves:
+        return res
+    leaf = leaves[case["leaf"] % len(leaves)]
+    others = [n for n in d if n != leaf and d[n]["k"] not in ("PLoad", "ILoad", "RLoad") and n != d[leaf]["parents"][0]]
+    if not others:
+        return res
+    newp = others[case["parent"] % len(others)]
+    s = build(spec)
+    run_analysis(s, spec, case["a"], mkargs())
+    lc = [c for c in spec["comps"] if c["n"] == leaf][0]
+    s.del_comp(leaf)
+    s.add_comp(newp, comp=make_comp(lc), group=lc.get("g", ""))
+    if lc.get("pc") is not None and spec.get("phases"):
+        s.set_comp_phases(leaf, copy.deepcopy(lc["pc"]))
+    for c in spec["comps"]:
+        if c["n"] == leaf:
+            c["p"] = [newp]
+    spec["comps"] = [c for c in spec["comps"] if c["n"] != leaf] + [c for c in spec["comps"] if c["n"] == leaf]   # the moved leaf is built last
+    got = run_analysis(s, spec, "solve", mkargs())
+    want = run_analysis(build(spec), spec, "solve", mkargs())
+    res.stats["transitions"] += 4
+    from ..reports import diff_tables
+    if (diff_tables(got, want, 1e-9, 1e-12) if isinstance(got, dict) and isinstance(want, dict) else got != want):
+        res.v(("C17.analysis-outlives-edit", case["a"]), "%s, then %s moved under %s: solve() differs from the edited structure built from scratch" % (case["a"], leaf, newp))
+    res.nontrivial = 1
+    res.classes.add("edit-between")
+    return res
+
+
 def check_case(case):
+    if case["fam"] == "editbetween":
+        return check_edit_between(case)
     if case["fam"] == "cross":
         return check_cross(case)
     return check_seq(case) if case["fam"] == "seq" else check_fault(case)
@@ -216,6 +255,11 @@ def gen_cases(tier):
             for t in itertools.product(ANALYSES, repeat=3):
                 if len(set(t)) == 3:
                     yield dict(fam="seq", sys=sysn, pal=pal, seq=list(t))
+    for sysn in ("chain", "fan", "phased", "tables"):
+        for a in ("solve", "params", "save", "phases", "make_hdiag", "batt_life"):
+            for leaf in (0, 1):
+                for parent in (0, 1):
+                    yield dict(fam="editbetween", sys=sysn, pal=pal, a=a, leaf=leaf, parent=parent)
     for carrier in ("vloss-vdrop", "pswitch-ig", "conv-eff", "linreg-ig", "rect-vdrop"):
         for variant in (1, 2):
             for a, b in itertools.product(("solve", "plot_interp", "make_hdiag", "batt_life", "rail_rep"), repeat=2):
@@ -244,7 +288,7 @@ def main(tier):
         run.map(check_case, gen_cases(tier), chunk=4, family="analyses")
     finally:
         _cw()
-    for c in ("seq2", "cross-system", "pfunc-raises", "dfunc-raises", "dfunc-aborts", "solver-raises", "normal"):
+    for c in ("seq2", "cross-system", "edit-between", "pfunc-raises", "dfunc-raises", "dfunc-aborts", "solver-raises", "normal"):
         run.require(c in run.classes, "class %s never observed" % c)
     return run.finish(
         rule="(a,b) 7 systems (chain, fan-out, two sources, 2-input PMux, phases, a 13-component system with 1-D / 2-D tables of every carrier + rails + groups + limits, a 3-input PMux with rails) x "
